@@ -61,7 +61,7 @@ Silent == {"FindCalibration", "DeleteCalibration", "Get", "Prop"}
 (* functions whose manual says they invoke the error function on failure   *)
 Reporting == {"MakeScalar", "MakeVector", "MakeUnknown", "MakeCorrelated",
               "DeleteParameter", "GetParameterValue", "NewAlloc",
-              "SetFrequencyVector", "SetZ0", "AddStd", "Solve",
+              "SetFrequencyVector", "SetZ0", "SetMError", "AddStd", "Solve",
               "AddCalibration", "Save", "Load"}
 
 NonWarn(cb) == SelectSeq(cb, LAMBDA c : c.cat # "WARNING")
@@ -124,6 +124,7 @@ InitStore ==
      news   |-> <<>>,
      fprec  |-> 7,          \* documented defaults of set_fprecision /
      dprec  |-> 6,          \* set_dprecision
+     fname  |-> -1,         \* file last saved to / loaded from (id), -1 none
      left   |-> {}]
 
 Live(P, h)  == h \in DOMAIN P /\ ~P[h].deleted
@@ -331,7 +332,8 @@ Z0Default == "z0"          \* 50 ohms
 NewRec(type, rows, cols, nf) ==
     [type |-> type, rows |-> rows, cols |-> cols, nf |-> nf, fv |-> <<>>,
      fvalid |-> FALSE, z0 |-> Z0Default, used |-> {}, held |-> {},
-     stds |-> <<>>, cal |-> [s |-> "none"]]
+     stds |-> <<>>, cal |-> [s |-> "none"],
+     merr |-> FALSE]         \* measurement-error model installed
 
 DoNewAlloc(st, op) ==
     IF ~ValidNew(op.type, op.rows, op.cols, op.nf) THEN Fail(st, {"EINVAL"})
@@ -377,6 +379,27 @@ DoSetZ0(st, op) == Ok([st EXCEPT !.news[op.n].z0 = op.z], 0)
 (* rows x columns shape, which the manual says is always permitted.        *)
 
 NPorts(nw) == Max2(nw.rows, nw.cols)
+
+(* the standard specifies the S matrix over all ports of the calibration   *)
+(* (the off-diagonal cells of reflect standards are zero by definition)    *)
+FullS(nw, std) == Len(std.ports) = NPorts(nw)
+
+(* vnacal_new_set_m_error.  op.cls: "set" valid vectors (one value, or one *)
+(* per calibration frequency), "clear" both vectors NULL, "bad" an invalid *)
+(* argument (frequencies < 1, non-positive noise, noise vector NULL).      *)
+(* Needs the frequency vector; with T16 / U16 every standard added so far  *)
+(* must give the complete S matrix.  A refused call leaves the model as it *)
+(* was.                                                                    *)
+DoSetMError(st, op) ==
+    LET nw == st.news[op.n]
+    IN CASE op.cls = "clear" -> Ok([st EXCEPT !.news[op.n].merr = FALSE], 0)
+         [] op.cls = "bad"   -> Fail(st, {"EINVAL"})
+         [] op.cls = "set"   ->
+              IF ~nw.fvalid THEN Fail(st, {"EINVAL"})
+              ELSE IF nw.type \in {"T16", "U16"} /\
+                      \E s \in Range(nw.stds) : ~FullS(nw, s)
+                   THEN Fail(st, {"EINVAL"})
+              ELSE Ok([st EXCEPT !.news[op.n].merr = TRUE], 0)
 
 ValidPorts(nw, std) ==
     /\ \A i \in 1..Len(std.ports) : std.ports[i] \in 1..NPorts(nw)
@@ -426,6 +449,8 @@ DoAddStd(st, op) ==
         ranged == nw.fvalid /\ nw.fv # <<>>
     IN IF ~ValidPorts(nw, std) \/ (\E h \in hs : ~Known(P, nw, h))
        THEN Fail(st, {"EINVAL"})          \* a rejected standard adds nothing
+       ELSE IF nw.merr /\ nw.type \in {"T16", "U16"} /\ ~FullS(nw, std)
+            THEN Fail(st, {"EINVAL"})     \* error model needs the full S
        ELSE IF ranged /\ (\E h \in hs : RangeBad(P, nw, h, a, b))
             THEN Fail(st, {"EINVAL"})     \* ... whichever cell is at fault
        ELSE IF /\ \A h \in hs : Usable(P, nw, h) /\ ChainOK(P, nw, h)
@@ -468,7 +493,7 @@ Unknowns(P, nw) ==
 (* the known standards alone determine the error terms and no correlated   *)
 (* parameter (soft constraint) takes part                                  *)
 GoodSolve(P, nw) ==
-    /\ Determined(P, nw)
+    /\ Determined(P, nw) /\ ~nw.merr
     /\ \A h \in Unknowns(P, nw) : P[h].kind = "unknown"
 
 CalSnap(nw) == [s |-> "fresh", type |-> nw.type, rows |-> nw.rows,
@@ -488,7 +513,7 @@ DoSolve(st, op) ==
                                          good |-> GoodSolve(P, nw)]]
                                 ELSE P[h]]], 0)
     IN IF ~nw.fvalid THEN Fail(st, {"EINVAL"})
-       ELSE IF Determined(P, nw) /\ U = {}
+       ELSE IF Determined(P, nw) /\ U = {} /\ ~nw.merr
             THEN IF ~op.ok THEN MustOk(st) ELSE solved
        ELSE IF op.ok THEN solved
             ELSE Fail(st, {"EDOM", "EINVAL"})    \* state (and any earlier
@@ -589,7 +614,7 @@ DoSetPrecision(st, op) ==
 (* documents, the same global document, a fresh parameter table, no        *)
 (* vnacal_new_t; the manual does not say which indices the loaded          *)
 (* calibrations get.                                                       *)
-DoSave(st, op) == Ok(st, 0)
+DoSave(st, op) == Ok([st EXCEPT !.fname = op.file], 0)
 
 -----------------------------------------------------------------------------
 (* vnacal_free: frees every vnacal_new_t, then the properties, then tears  *)
@@ -616,7 +641,7 @@ FreeNews(P, news, N) ==
 
 DeadStore(left) ==
     [alive |-> FALSE, params |-> <<>>, slots |-> <<>>, gprops |-> PD!Null,
-     news |-> <<>>, fprec |-> 0, dprec |-> 0, left |-> left]
+     news |-> <<>>, fprec |-> 0, dprec |-> 0, fname |-> -1, left |-> left]
 
 DoFree(st, op) ==
     LET P1 == FreeNews(st.params, st.news, DOMAIN st.news)
@@ -642,6 +667,7 @@ Do(st, op) ==
       [] op.op = "NewAlloc"           -> DoNewAlloc(st, op)
       [] op.op = "SetFrequencyVector" -> DoSetFrequencyVector(st, op)
       [] op.op = "SetZ0"              -> DoSetZ0(st, op)
+      [] op.op = "SetMError"          -> DoSetMError(st, op)
       [] op.op = "AddStd"             -> DoAddStd(st, op)
       [] op.op = "Solve"              -> DoSolve(st, op)
       [] op.op = "NewFree"            -> DoNewFree(st, op)
